@@ -39,6 +39,10 @@ impl ManifestPackCreator {
         let mut pack_infos = vec![];
         let mut free_data_ids = vec![];
 
+        assert!(
+            self.packs.len() <= u16::MAX as usize,
+            "A manifest cannot reference more than 65535 packs"
+        );
         let nb_packs = self.packs.len() as u16;
 
         for (pack_data, _locator) in &self.packs {
